@@ -198,9 +198,25 @@ def Sub.offer (s : Sub) (r : Rec) : Sub :=
     else { s with attempts := s.attempts ++ [(r, false)] }
   else s
 
+/-- The loop `for _, sub := range c.subscriptions` of `notifySubscribers`, iteration by iteration as it is written:
+    test, non-blocking send (`select { case sub.Feed <- r: … default: … }`), and then — for each of the three paths an
+    iteration can take — either the next subscription or the end of the loop. Which of the two is regenerated from
+    the source (`PB.Gen.Subs.notify…Exits`: a `return`/`break` on that path). -/
+def notifyLoop (r : Rec) : List Sub → List Sub
+  | [] => []
+  | s :: ss =>
+    if s.visible r then
+      if s.buf.length < PB.Gen.Subs.feedCap then
+        { s with buf := s.buf ++ [r], attempts := s.attempts ++ [(r, true)] } ::
+          (if PB.Gen.Subs.notifySentExits then ss else notifyLoop r ss)
+      else
+        { s with attempts := s.attempts ++ [(r, false)] } ::
+          (if PB.Gen.Subs.notifyFullExits then ss else notifyLoop r ss)
+    else s :: (if PB.Gen.Subs.notifySkipExits then ss else notifyLoop r ss)
+
 /-- `notifySubscribers` (sequentially: the whole loop). Also extends the ghost list of successful writes. -/
 def notify (st : St) (r : Rec) : St :=
-  { st with subs := st.subs.map (·.offer r), writes := st.writes ++ [r] }
+  { st with subs := notifyLoop r st.subs, writes := st.writes ++ [r] }
 
 /-! ## Controller and interface operations -/
 
@@ -356,6 +372,7 @@ inductive Op where
   | push (r : Rec)
   | flush
   | drain
+  | drainOne (id : Nat)
 
 def step (st : St) : Op → St × Out
   | .subscribe id o q =>
@@ -377,6 +394,12 @@ def step (st : St) : Op → St × Out
     ({ st with subs := st.subs.map ({ · with buf := [] }),
                closed := st.closed.map (fun (s, u) => ({ s with buf := [] }, u)) },
      { feeds := st.subs.map (fun s => (s.id, s.buf, false)) ++ st.closed.map (fun (s, _) => (s.id, s.buf, true)) })
+  | .drainOne id =>
+    -- the subscriber of one subscription reads everything that is in its feed; the other feeds are left alone
+    ({ st with subs := st.subs.map (fun s => if s.id == id then { s with buf := [] } else s),
+               closed := st.closed.map (fun (s, u) => (if s.id == id then { s with buf := [] } else s, u)) },
+     { feeds := (st.subs.filter (·.id == id)).map (fun s => (s.id, s.buf, false)) ++
+                (st.closed.filter (·.1.id == id)).map (fun (s, _) => (s.id, s.buf, true)) })
 
 /-- Run a history; returns the final state and the outputs in order. -/
 def run (st : St) : List Op → St × List Out
